@@ -22,7 +22,7 @@ Info(id) == [key |-> id, crc |-> id, len |-> 1, ts |-> id, def |-> 0, acked |-> 
 
 MInit == /\ minfo = <<>> /\ tq = {} /\ owed = <<>> /\ copying = <<>>
          /\ chan = [c \in Chans |-> [NewChan(T) EXCEPT !.st = "live"]]
-         /\ top = (T :> [paused |-> "no"])
+         /\ top = (T :> [paused |-> "no", gone |-> FALSE])
          /\ cust = <<>> /\ done = <<>> /\ stash = <<>>
          /\ cl \in {[k \in Ks |-> [NewClient EXCEPT !.c = f[k], !.tmo = Tmo]] : f \in [Ks -> Chans]}
          /\ now = 0 /\ pc = [k \in Ks |-> "idle"]
